@@ -96,7 +96,7 @@ template<typename T_setter, typename T_getter1, typename T_getter2>
 struct compose2_functor : public adapts<T_setter>
 {
   template<typename... T_arg>
-  decltype(auto) operator()(T_arg... a)
+  decltype(auto) operator()(T_arg&&... a)
   {
     return std::invoke(this->functor_, get1_(a...), get2_(a...));
   }
